@@ -31,7 +31,7 @@ import (
 	"github.com/metrico/qryn/reader/logql/logql_parser"
 	"github.com/metrico/qryn/reader/logql/logql_transpiler_v2"
 	"github.com/metrico/qryn/reader/utils/logger"
-	"verif/harness/fakes"
+	fakes "verif/harness/fakes12"
 	"verif/harness/h"
 )
 
